@@ -93,6 +93,129 @@ def random_cut(h, rng):
     return parts
 
 
+WT_FRAME = "404100"             # frame type 0x41 (two-byte varint), session id 0  (R-03b)
+
+
+def wt_cases(rng, big):
+    """frame type 0x41 (WEBTRANSPORT_STREAM) on a stream read through the request API: as first frame,
+    in body position, after the trailers; WebTransport enabled in the configuration or not; both
+    roles; every ending; whole / per frame / per byte (cuts the 0x41 header) / random; and the header
+    cut short (type without session id)"""
+    out = []
+    prefixes = [[], ["U0"], ["H"], ["H", "Dn"], ["H", "D0", "Un"], ["H", "H"], ["H", "Dn", "H"], ["H", "Dn", "H", "U0"]]
+    suffixes = [[], ["Dn"], ["H"], ["U0"]]
+    k = 0
+    for role in ("server", "client"):
+        for pre in prefixes:
+            fr_pre = frames_of(pre, role)
+            for wt in (WT_FRAME, "404104", "4041", "40417fff"):   # complete (ids 0, 4), type only, id cut short
+                for suf in (suffixes if wt in (WT_FRAME, "404104") else [[]]):
+                    seen = "H" in pre
+                    fr_suf = [frame_hex(l, len(pre) + 1 + i, role, seen) for i, l in enumerate(suf)]
+                    fr = fr_pre + [wt] + fr_suf
+                    for cfg in ("g0", "g0,wt=1", "g0,wt=0", "g1,wt=1"):
+                        for ending in ("f0", "r0:%d" % (300 + k % 7), ""):
+                            k += 1
+                            for m in (["whole", "frame", "byte", "random"] if big or cfg != "g1,wt=1" else ["random"]):
+                                out.append(line(role, fr, ending, m, rng, cfg=cfg))
+                            out.append(line(role, fr, ending or "f0", "random", rng, cfg=cfg, late_end=True))
+    return out
+
+
+def split_cases(rng, big):
+    """`RequestStream::split` in the middle of reading: part of the body is read on the whole stream
+    (`q0.rd!`, one piece per call), the stream is split (`q0.sp`, the task keeps the receive half),
+    the rest is read on the receive half — at EVERY position of a DATA frame whose payload arrives in
+    several chunks (after 0 … all of its pieces), between two DATA frames, and between the end of the
+    body and the trailers (`q0.rda! q0.sp q0.rt`).  The single `rd!` calls never reach the end of the
+    body (there are at least as many pieces as calls), so the outcome must be the documented one."""
+    out = []
+    payloads = ["a1a2a3", "b1b2b3b4b5", "0000", "000000000000", "0100", "21002100", "0001ff", "01030000d9"]
+    for role in ("server", "client"):
+        head = hdr_frame(BLK_REQUEST if role == "server" else BLK_RESPONSE)
+        hname = "res" if role == "server" else "rr"
+        for pay in payloads:
+            n = len(pay) // 2
+            data_hdr = "00%02x" % n
+            cuts_list = [[1] * n]                       # one byte per chunk
+            if n >= 4:
+                cuts_list.append([2] * (n // 2) + ([n % 2] if n % 2 else []))
+                cuts_list.append([1, n - 2, 1])
+            for cut in cuts_list:
+                pieces, o = [], 0
+                for c in cut:
+                    pieces.append(pay[2 * o:2 * (o + c)])
+                    o += c
+                for before in ("", "2100", "0000"):
+                    for after, trailers in (("", False), ("0002c1c2", False), ("", True), ("00000001c3404001ee", True)):
+                        tail = after + (hdr_frame(BLK_TRAILER) if trailers else "")
+                        for ending in ("f0", "", "r0:77"):
+                            for k in range(0, len(pieces) + 1):      # pieces read before the split
+                                for style in ("lockstep", "upfront", "posted"):
+                                    if not big and rng.random() < 0.5:
+                                        continue
+                                    ops = [SETUP[role] % "g0", "#pieces"]
+                                    first = head + before + data_hdr + pieces[0]
+                                    rest = pieces[1:]
+                                    if style == "upfront":
+                                        ops.append("s0:" + first)
+                                        ops += ["s0:" + p for p in rest]
+                                        if tail:
+                                            ops.append("s0:" + tail)
+                                        ops.append("q0.%s!" % hname)
+                                        ops += ["q0.rd!"] * k
+                                        ops.append("q0.sp")
+                                    elif style == "lockstep":
+                                        ops += ["s0:" + first, "q0.%s!" % hname]
+                                        if k >= 1:
+                                            ops.append("q0.rd!")
+                                        for j, p in enumerate(rest):
+                                            if j + 2 <= k:
+                                                ops += ["s0:" + p, "q0.rd!"]
+                                        ops.append("q0.sp")
+                                        ops += ["s0:" + p for j, p in enumerate(rest) if j + 2 > k]
+                                        if tail:
+                                            ops.append("s0:" + tail)
+                                    else:   # the calls (and the split) are posted before the bytes arrive
+                                        ops.append("q0.%s!" % hname if role == "client" else "s0:" + first[:4])
+                                        if role == "server":
+                                            ops.append("q0.%s!" % hname)
+                                            ops.append("s0:" + first[4:])
+                                        else:
+                                            ops.append("s0:" + first)
+                                        if k == 0:
+                                            ops.append("q0.sp")
+                                        for j, p in enumerate(rest):
+                                            if j + 1 == k:
+                                                ops += ["q0.rd!"] * k + ["q0.sp"]
+                                            ops.append("s0:" + p)
+                                        if k == len(pieces) and k >= 1:
+                                            ops += ["q0.rd!"] * k + ["q0.sp"]
+                                        if tail:
+                                            ops.append("s0:" + tail)
+                                    late = rng.random() < 0.3
+                                    if ending and not late:
+                                        ops.append(ending)
+                                    ops += ["q0.rda!", "q0.rt"]
+                                    if ending and late:
+                                        ops.append(ending)
+                                    out.append(" ".join(ops))
+        # between the end of the body and the trailers (and other places of the documented pattern)
+        bodies = ["", "0000", "0003aabbcc", "0001aa21000002bbcc", "404003beef010002a1a2"]
+        for body in bodies:
+            for trailers in (True, False):
+                for post in ("", "2100", "0001ff"):
+                    msg = [head, body, hdr_frame(BLK_TRAILER) if trailers else "", post]
+                    for ending in ("f0", "", "r0:78"):
+                        for m in ("whole", "frame", "byte", "random"):
+                            for pat in (["q0.%s!" % hname, "q0.rda!", "q0.sp", "q0.rt"],
+                                        ["q0.%s!" % hname, "q0.sp", "q0.rda!", "q0.rt"],
+                                        ["q0.%s!" % hname, "q0.sp", "q0.rda!", "q0.sp", "q0.rt"]):
+                                out.append(line(role, [f for f in msg if f], ending, m, rng, calls=" ".join(pat)))
+                                out.append(line(role, [f for f in msg if f], ending or "f0", m, rng, calls=" ".join(pat), late_end=True))
+    return out
+
+
 def line(role, frames, ending, chunking, rng=None, cfg="g0", calls=None, late_end=False):
     whole = "".join(frames)
     if chunking == "whole":
@@ -204,6 +327,10 @@ class C03(Prop):
                 continue
             cmd, _, res = t[len(pre):].partition("=")
             if res == "no-task":
+                continue
+            # a `split` that was carried out has no result of its own: what is compared is what the
+            # receive calls answer, whole or split (the data pieces around it are merged as usual)
+            if cmd == "sp" and res == "ok":
                 continue
             if cmd == "rd" and res.startswith("data:"):
                 h = res[5:]
@@ -340,8 +467,16 @@ class C03(Prop):
                     calls = ["q0.%s!" % hname] + ["q0." + rng.choice(["rd", "rd", "rt", "rda"]) + "!" for _ in range(rng.randrange(1, 7))]
                 else:
                     calls = ["q0." + rng.choice(["rd", "rt", hname, "rda"]) + "!" for _ in range(rng.randrange(1, 6))]
+                # `split` anywhere in a raw call sequence (also before the head, also twice)
+                if rng.random() < 0.35:
+                    for _ in range(rng.choice([1, 1, 2])):
+                        calls.insert(rng.randrange(0, len(calls) + 1), "q0.sp")
                 add(line(role, fr, rng.choice(["f0", "f0", "", "r0:11"]), rng.choice(modes), rng, calls=" ".join(calls),
                          late_end=rng.random() < 0.2))
+        for l in wt_cases(rng, big):
+            add(l)
+        for l in split_cases(rng, big):
+            add(l)
         return L
 
     def klass(self, line, impl):
